@@ -54,39 +54,59 @@ func ComputeNullables(rules map[string]*ast.Rule) {
 func findLeader(
 	graph map[string]map[string]struct{}, scc map[string]struct{},
 ) (string, error) {
-	// Try to find a leader such that all cycles go through it.
-	leaders := make(map[string]struct{}, len(scc))
-	for k := range scc {
-		leaders[k] = struct{}{}
-	}
-	for start := range scc {
-		cycles, err := FindCyclesInSCC(graph, scc, start)
-		if err != nil {
-			return "", fmt.Errorf("error find cycles: %w", err)
-		}
-		for _, cycle := range cycles {
-			mapCycle := make(map[string]struct{}, len(cycle))
-			for _, k := range cycle {
-				mapCycle[k] = struct{}{}
-			}
-			for k := range scc {
-				if _, okCycle := mapCycle[k]; !okCycle {
-					delete(leaders, k)
-				}
-			}
-			if len(leaders) == 0 {
-				return "", ErrNoLeader
-			}
-		}
-	}
+	// Try to find a leader such that all cycles go through it: a rule without
+	// which the component has no cycle left. (Enumerating the cycles instead
+	// takes factorial time on a dense component.)
 	// Pick an arbitrary but stable leader from the candidates.
 	var leader string
-	for k := range leaders {
-		if leader == "" || k < leader {
+	for k := range scc {
+		if leader != "" && k > leader {
+			continue
+		}
+		rest := make(map[string]struct{}, len(scc))
+		for v := range scc {
+			if v != k {
+				rest[v] = struct{}{}
+			}
+		}
+		if !hasCycle(graph, rest) {
 			leader = k
 		}
 	}
+	if leader == "" {
+		return "", ErrNoLeader
+	}
 	return leader, nil
+}
+
+// hasCycle reports whether the graph restricted to the vertices has a cycle.
+func hasCycle(graph map[string]map[string]struct{}, vertices map[string]struct{}) bool {
+	const (
+		unseen = iota
+		open
+		done
+	)
+	state := make(map[string]int, len(vertices))
+	var visit func(v string) bool
+	visit = func(v string) bool {
+		state[v] = open
+		for w := range graph[v] {
+			if _, ok := vertices[w]; !ok {
+				continue
+			}
+			if state[w] == open || (state[w] == unseen && visit(w)) {
+				return true
+			}
+		}
+		state[v] = done
+		return false
+	}
+	for v := range vertices {
+		if state[v] == unseen && visit(v) {
+			return true
+		}
+	}
+	return false
 }
 
 // ComputeLeftRecursives evaluates left recursion.
